@@ -219,40 +219,80 @@ theorem ValidChain.head_some {s : St Node VH} {c : Nat} {rest : List Nat} (h : V
   | nil => obtain ⟨ov, h1, _⟩ := h; exact ⟨ov, h1⟩
   | cons p rest => obtain ⟨⟨ovc, _, h1, _⟩, _⟩ := h; exact ⟨ovc, h1⟩
 
+theorem dropOv_ov?_self (s : St Node VH) (oid : Nat) (o : Ov Node VH) (ho : s.ov? oid = some o) :
+    (dropOv s oid).ov? oid = some { o with held := false } := by
+  have hid : o.id = oid := (ov?_some ho).2
+  subst hid
+  unfold dropOv
+  rw [ho]
+  exact setOv_ov?_self s o { o with held := false } ho
+
+/-- after a successful overlay commit the overlay is marked committed and its handle is gone -/
+theorem commitOv_ok_ov?_self (s : St Node VH) (oid : Nat) (o : Ov Node VH) (ho : s.ov? oid = some o)
+    (hh : o.held = true) (hp : parentOk s o = true) (hr : s.root = o.prevRoot) :
+    (commitOv s oid).2.ov? oid = some { o with held := false, committed := true } := by
+  have hid : o.id = oid := (ov?_some ho).2
+  rw [commitOv_ok s oid o ho hh hp hr]
+  subst hid
+  exact setOv_ov?_self (dropOv s o.id) { o with held := false } { o with held := false, committed := true }
+    (dropOv_ov?_self s o.id o ho)
+
+theorem commitSeq_snoc_snd (s : St Node VH) (l : List Nat) (c : Nat) (h1 : (commitSeq s l).1 = true) :
+    (commitSeq s (l ++ [c])).2 = (commitOv (commitSeq s l).2 c).2 := by
+  rw [commitSeq_append, if_pos h1]
+  simp only [commitSeq]
+  split <;> rfl
+
 /-- one more commit at the end of a sequence that went through -/
 theorem commitSeq_snoc_ok (s : St Node VH) (l : List Nat) (c : Nat) (ovc : Ov Node VH)
     (h1 : (commitSeq s l).1 = true) (hcore : core (commitSeq s l).2 = core (directSeq s s l))
     (hs : s.ov? c = some ovc) (hc : c ∉ l) (hh : ovc.held = true)
     (hp : parentOk (commitSeq s l).2 ovc = true) (hr : (commitSeq s l).2.root = ovc.prevRoot) :
-    (commitSeq s (l ++ [c])).1 = true ∧ core (commitSeq s (l ++ [c])).2 = core (directSeq s s (l ++ [c])) := by
+    (commitSeq s (l ++ [c])).1 = true ∧ core (commitSeq s (l ++ [c])).2 = core (directSeq s s (l ++ [c])) ∧
+    (commitSeq s (l ++ [c])).2.ov? c = some { ovc with held := false, committed := true } ∧
+    (∀ id, id ≠ c → (commitSeq s (l ++ [c])).2.ov? id = (commitSeq s l).2.ov? id) := by
   have hov : (commitSeq s l).2.ov? c = some ovc := by rw [commitSeq_ov?_ne s l c hc]; exact hs
   have hok := commitOv_ok (commitSeq s l).2 c ovc hov hh hp hr
-  rw [commitSeq_append, if_pos h1, directSeq_snoc s s l c ovc hs]
-  simp only [commitSeq, hok, if_true]
-  refine ⟨trivial, ?_⟩
-  apply core_applyCommit_congr
-  rw [core_setOv, core_dropOv]
-  exact hcore
+  refine ⟨?_, ?_, ?_, ?_⟩
+  · rw [commitSeq_append, if_pos h1]
+    simp only [commitSeq, hok, if_true]
+  · rw [commitSeq_snoc_snd s l c h1, directSeq_snoc s s l c ovc hs, hok]
+    apply core_applyCommit_congr
+    rw [core_setOv, core_dropOv]
+    exact hcore
+  · rw [commitSeq_snoc_snd s l c h1]
+    exact commitOv_ok_ov?_self _ c ovc hov hh hp hr
+  · intro id hid
+    rw [commitSeq_snoc_snd s l c h1]
+    exact commitOv_ov?_ne _ c id (fun e => hid e.symm)
 
-/-- **committing a valid chain oldest-first**: every commit returns `ok` and the committed state (values,
-root, rollback log, sequence number, marker) is the one direct commits of the same batches produce -/
+/-- **committing a valid chain oldest-first**: every commit returns `ok`, the committed state (values,
+root, rollback log, sequence number, marker) is the one direct commits of the same batches produce, and
+every overlay of the chain ends up committed with its handle consumed -/
 theorem commitSeq_chain (s : St Node VH) (chain : List Nat) (hnd : chain.Nodup) (hv : ValidChain s chain) :
     (commitSeq s chain.reverse).1 = true ∧
-    core (commitSeq s chain.reverse).2 = core (directSeq s s chain.reverse) := by
+    core (commitSeq s chain.reverse).2 = core (directSeq s s chain.reverse) ∧
+    (∀ o ∈ chain, ∃ ov, s.ov? o = some ov ∧
+      (commitSeq s chain.reverse).2.ov? o = some { ov with held := false, committed := true }) := by
   induction chain with
-  | nil => exact ⟨rfl, rfl⟩
+  | nil => exact ⟨rfl, rfl, fun o ho => by cases ho⟩
   | cons c tl ih =>
-    have hc : c ∉ tl.reverse := by
-      rw [List.mem_reverse]; exact (List.nodup_cons.1 hnd).1
+    have hc' : c ∉ tl := (List.nodup_cons.1 hnd).1
+    have hc : c ∉ tl.reverse := by rw [List.mem_reverse]; exact hc'
     have hnd' := (List.nodup_cons.1 hnd).2
     rw [List.reverse_cons]
     cases tl with
     | nil =>
       obtain ⟨ov, h1, h2, h3, h4⟩ := hv
-      exact commitSeq_snoc_ok s [] c ov rfl rfl h1 hc h2 h3 h4.symm
+      obtain ⟨r1, r2, r3, _⟩ := commitSeq_snoc_ok s [] c ov rfl rfl h1 hc h2 h3 h4.symm
+      refine ⟨r1, r2, ?_⟩
+      intro o ho
+      have : o = c := by simpa using ho
+      subst this
+      exact ⟨ov, h1, r3⟩
     | cons p rest =>
       obtain ⟨⟨ovc, ovp, h1, h2, h3, h4, h5⟩, hv'⟩ := hv
-      obtain ⟨i1, i2⟩ := ih hnd' hv'
+      obtain ⟨i1, i2, i3⟩ := ih hnd' hv'
       have hd : directSeq s s (p :: rest).reverse
           = applyCommit (directSeq s s rest.reverse) ovp.changes ovp.delta ovp.root (some p) := by
         rw [List.reverse_cons]; exact directSeq_snoc s s _ p ovp h2
@@ -260,9 +300,15 @@ theorem commitSeq_chain (s : St Node VH) (chain : List Nat) (hnd : chain.Nodup) 
       rw [hd] at hcore
       simp only [core, applyCommit, Prod.mk.injEq] at hcore
       obtain ⟨_, hroot, _, _, _, _, hmark⟩ := hcore
-      refine commitSeq_snoc_ok s _ c ovc i1 i2 h1 hc h3 ?_ ?_
-      · unfold parentOk; rw [h4]; simp only; rw [hmark]; simp
-      · rw [hroot, h5]
+      obtain ⟨r1, r2, r3, r4⟩ := commitSeq_snoc_ok s _ c ovc i1 i2 h1 hc h3
+        (by unfold parentOk; rw [h4]; simp only; rw [hmark]; simp) (by rw [hroot, h5])
+      refine ⟨r1, r2, ?_⟩
+      intro o ho
+      rcases List.mem_cons.1 ho with e | ho'
+      · subst e; exact ⟨ovc, h1, r3⟩
+      · obtain ⟨ov, g1, g2⟩ := i3 o ho'
+        have hne : o ≠ c := fun e => hc' (e ▸ ho')
+        exact ⟨ov, g1, by rw [r4 o hne]; exact g2⟩
 
 theorem directSeq_root_baseRoot (s : St Node VH) (chain : List Nat)
     (hh : ∀ c rest, chain = c :: rest → ∃ ov, s.ov? c = some ov) :
